@@ -155,6 +155,16 @@ func runC12(c *Ctx) {
 	}
 	p := lr.p
 	limitBatchLoop(c, lr, "Q6")
+	r.Doc("Q9", "the constructor refuses a configuration only on a missing / out-of-range test", 1)
+	checkCtorRefusals(c, p, lr.d, "Q9")
+	r.Doc("Q8", "error tests of the constructor are not inverted (valid options give a running discipline)", 2)
+	var q8 []*ssa.Function
+	for _, fn := range p.errorFuncs("limit") {
+		if !strings.HasSuffix(p.Pos(fn.Pos()), "rate.go") && !strings.Contains(p.Pos(fn.Pos()), "rate.go:") {
+			q8 = append(q8, fn)
+		}
+	}
+	checkErrorTests(c, p, "Q8", q8)
 	// Q7: one goroutine and one output channel per discipline, both created by the constructor. A
 	// goroutine or channel created later, from an API method, is created once per racing caller:
 	// consumers then hold different channels, some never written and never closed
